@@ -46,7 +46,7 @@ def make_value(name, vid, rnd):
     if name == "UID":
         return f"uid-{vid}"
     if name == "X-B":
-        return f"xb {vid}"
+        return "" if vid == "x0" else f"xb {vid}"      # x0: an empty (falsy) value must be kept like any other
     if name == "ATTENDEE":
         a = vCalAddress(f"mailto:{vid}@example.com")
         items = [("CN", f"Name {vid}"), ("ROLE", "CHAIR"), ("X-P", "a,b")]
@@ -58,7 +58,7 @@ def make_value(name, vid, rnd):
 
 
 MARK = {"SUMMARY": lambda t: t.split("summary ")[1], "UID": lambda t: t.split("uid-")[1],
-        "X-B": lambda t: t.split("xb ")[1], "ATTENDEE": lambda t: t.split("mailto:")[1].split("@")[0],
+        "X-B": lambda t: "x0" if t.rstrip().endswith(":") else t.split("xb ")[1], "ATTENDEE": lambda t: t.split("mailto:")[1].split("@")[0],
         "DTSTART": lambda t: "d1" if "T100000" in t else "d2", "X-ID": lambda t: t.split(":")[1]}
 
 
@@ -155,7 +155,7 @@ def digest_program():
 def run(ctx: Ctx):
     rnd = random.Random(ctx.seed)
     addops = {("add", tuple(L(n)), v) for n, v in (("SUMMARY", "s1"), ("DTSTART", "d1"), ("UID", "u1"), ("X-B", "x1"),
-                                                  ("ATTENDEE", "a1"), ("ATTENDEE", "a2"), ("SUMMARY", "s2"), ("DTSTART", "d2"))}
+                                                  ("ATTENDEE", "a1"), ("ATTENDEE", "a2"), ("SUMMARY", "s2"), ("DTSTART", "d2"), ("X-B", "x0"))}
     canon = [tuple(L(n)) for n in Event.canonical_order]
     r = ctx.mc("MC_Serialise", cfg_text(spec="Spec", constants={"SubIds": {"c1", "c2"}, "MaxLen": 4 if ctx.quick else 5},
                                         invariants=["InvSwap", "InvBalanced", "InvSameLines", "Vec"]),
